@@ -4,6 +4,9 @@ import PV.C09.Lemmas
 import PV.Gen.C09TypedParsers
 import PV.Gen.C09ModeNames
 import PV.C09.LexShift   -- lexer model: PV.C09.lex_shift, lex_shift_of_fit (the `ShiftEnv.lex` hypothesis below, proved there)
+import PV.C09.Pipeline   -- text → answer on the models (lexer model, filter, token conversion, PV.Prog.parseProgram)
+import PV.C09.RShift     -- the ranged expression parser PV.C02.parseR commutes with a shift of the span table
+import PV.Prog.Thm       -- PV.Prog.parseProgram_layout_free
 /-
   C09 — property theorems: "start offsets only translate positions; all entry points agree".
 
@@ -15,6 +18,12 @@ import PV.C09.LexShift   -- lexer model: PV.C09.lex_shift, lex_shift_of_fit (the
 
   The model is the code AFTER the three repairs 9f7255d (`not_before`), e8203b1 (start marker at the
   first token), 582d03b (trivia filter inside `parse_filtered_tokens`).
+
+  END TO END ON THE MODELS (last section, after the sections about the wiring): with the lexer model `PV.Lexer.lex`, the
+  reference parser for programs `PV.Prog.parseProgram` and the ranged expression parser `PV.C02.parseR` in place of the
+  parameters — `lex_parse_shift_model` (the range-erased answer at start offset `k` is the answer at 0, a lexical error
+  offset moved by `k`), `parseR_shift` / `lex_parseR_shift_model` (the RANGED tree of an expression lexed at offset `k` is
+  the ranged tree at 0 with every range moved by `k`: the first sentence of the property, for the expression fragment).
 -/
 namespace PV.C09
 open Spec
@@ -377,5 +386,213 @@ example : StartsNotBefore toyEnvNoRange.view 5
     simp at hb
     subst hb
     simp [toyEnvNoRange]
+
+end PV.C09
+
+/-! ## 4. Start offsets only translate positions — end to end on the models
+
+  Sections 1–3 hold for an ARBITRARY lexer and parser.  Here the lexer is the lexer model `PV.Lexer.lex` (for which
+  `lex_shift` is a theorem), the parser is the reference parser for whole programs `PV.Prog.parseProgram` (range-erased
+  trees: `PV.Prog.parseProgram_layout_free`) resp. the ranged expression parser `PV.C02.parseR` (`parseR_shift`,
+  lean/PV/C09/RShift.lean).  The token conversion between the models' alphabets is a parameter that cannot see positions,
+  as in `PV.C08.layout_tree_invariant`. -/
+
+namespace PV.C09
+open PV.Lexer PV.Pipeline
+
+/-- move the one position a range-erased answer carries — the offset of a lexical error — by `k` -/
+def shiftAnswer (k : Nat) : Answer → Answer
+  | .lexError kind off => .lexError kind (off + k)
+  | a => a
+
+/-- move the span of a parser token by `k` -/
+def shiftSTok (k : Nat) (t : PV.Prog.STok) : PV.Prog.STok := ⟨t.tok, t.start + k, t.stop + k⟩
+
+theorem pipe_filterTrivia_shift (k : Nat) (toks : List Spanned) :
+    Pipeline.filterTrivia (toks.map (shiftTok k)) = (Pipeline.filterTrivia toks).map (shiftTok k) := by
+  simp [Pipeline.filterTrivia, List.filter_map, shiftTok, Function.comp_def]
+
+theorem convAll_shift (conv : Conv) (k : Nat) : ∀ toks : List Spanned,
+    convAll conv (toks.map (shiftTok k)) = (convAll conv toks).map (·.map (shiftSTok k))
+  | [] => rfl
+  | t :: ts => by
+    simp only [List.map_cons, convAll, convAll_shift conv k ts]
+    have e : (shiftTok k t).tok = t.tok := rfl
+    rw [e]
+    cases h1 : conv t.tok <;> cases h2 : convAll conv ts <;> simp [shiftTok, shiftSTok]
+
+theorem eraseSpans_shift (k : Nat) (ts : List PV.Prog.STok) :
+    PV.Prog.eraseSpans (ts.map (shiftSTok k)) = PV.Prog.eraseSpans ts := by
+  simp [PV.Prog.eraseSpans, shiftSTok, Function.comp_def]
+
+theorem parserInput_shift (conv : Conv) (k : Nat) (toks : List Spanned) :
+    parserInput conv (toks.map (shiftTok k)) = (parserInput conv toks).map (·.map (shiftSTok k)) := by
+  simp only [parserInput, pipe_filterTrivia_shift, convAll_shift]
+
+/-- the parser's answer on a translated token stream: the streams differ in positions only, so the trees are EQUAL
+    (`PV.Prog.parseProgram_layout_free`); a lexical error keeps its kind and moves by `k` -/
+theorem answerOf_shift (conv : Conv) (pmode : PV.Prog.Mode) (k : Nat) (o : LexOut) :
+    answerOf conv pmode (some (shiftOut k o)) = shiftAnswer k (answerOf conv pmode (some o)) := by
+  cases hf : o.fin with
+  | eof =>
+    have hf' : (shiftOut k o).fin = .eof := by simp [shiftOut, shiftEnd, hf]
+    rw [answerOf_eof conv pmode _ hf', answerOf_eof conv pmode _ hf]
+    simp only [shiftOut, parserInput_shift]
+    cases parserInput conv o.toks with
+    | none => rfl
+    | some ts =>
+      simp only [Option.map_some, Option.bind_some]
+      rw [PV.Prog.parseProgram_layout_free pmode _ ts (eraseSpans_shift k ts)]
+      cases PV.Prog.parseSpanned pmode ts <;> rfl
+  | outOfFuel => simp [answerOf, answerOfFuel, shiftOut, shiftEnd, hf, shiftAnswer]
+  | err kd c b => simp [answerOf, answerOfFuel, shiftOut, shiftEnd, hf, shiftAnswer]
+
+/-- **Parsing at start offset `k` gives the result of parsing at offset 0** (on the models, range-erased trees): for every
+    token conversion, lexer configuration, mode and source — the same tree (EQUAL: `PV.Prog.Mod` carries no ranges), the
+    same rejection, or the same lexical error with its offset moved by `k`.  Composition of `lex_shift` (the whole token
+    stream at offset `k` is the stream at 0 with every position moved by `k`) with `PV.Prog.parseProgram_layout_free`.
+    The hypothesis says that nothing overflows `u32` (`PV.C03.offset_arith_u32`: `reachedB ≤ start + utf8Len src`, so it
+    holds whenever `k + utf8Len src ≤ u32::MAX`, the property's quantifier). -/
+theorem lex_parse_shift_model (conv : Conv) (cfg : Cfg) (mode : PV.Lexer.Mode) (k : Nat) (src : List Nat)
+    (hfit : ∀ o, lex cfg mode 0 src = some o → o.reachedB + k ≤ u32Max) :
+    parseText conv cfg mode k src = shiftAnswer k (parseText conv cfg mode 0 src) := by
+  unfold parseText
+  cases h0 : lex cfg mode 0 src with
+  | none => rw [lex_shift, h0]; rfl
+  | some o => rw [lex_shift_of_fit cfg mode k src o h0 (hfit o h0), answerOf_shift]
+
+/-- `x = (1,⏎ 2)⏎` -/
+def shiftSrc : List Nat := [120, 32, 61, 32, 40, 49, 44, 10, 32, 50, 41, 10]
+
+theorem shiftSrc_lex0 : lex ⟨false, asciiUp⟩ .module 0 shiftSrc = some
+    ⟨[⟨.name [120], 0, 1, 0, 1⟩, ⟨.op .Equal, 2, 3, 2, 3⟩, ⟨.op .Lpar, 4, 5, 4, 5⟩, ⟨.int 1, 5, 6, 5, 6⟩,
+      ⟨.op .Comma, 6, 7, 6, 7⟩, ⟨.int 2, 9, 10, 9, 10⟩, ⟨.op .Rpar, 10, 11, 10, 11⟩, ⟨.newline, 11, 12, 11, 12⟩],
+     .eof, 12⟩ := by decide +kernel
+
+/-- lexed at offset 400 the text gives the tree it gives at offset 0 (the hypothesis of the theorem holds: 12 + 400 fits) -/
+example : parseText sampleConv ⟨false, asciiUp⟩ .module 400 shiftSrc =
+    .tree (.module [.assign [.name [120]] (.tuple [.const (.int 1), .const (.int 2)])]) := by
+  rw [lex_parse_shift_model sampleConv _ .module 400 shiftSrc
+    (fun o h => by rw [shiftSrc_lex0] at h; cases h; decide)]
+  unfold parseText
+  rw [shiftSrc_lex0]
+  rfl
+
+/-- `x $` at offset 400: the lexical error of offset 0 (byte 3), moved by 400 -/
+example : parseText sampleConv ⟨false, asciiUp⟩ .module 400 [120, 32, 36] = .lexError (.unrecognizedToken 36) 403 := by
+  have h : lex ⟨false, asciiUp⟩ .module 0 [120, 32, 36] = some
+      ⟨[⟨.name [120], 0, 1, 0, 1⟩], .err (.unrecognizedToken 36) 3 3, 3⟩ := by decide +kernel
+  rw [lex_parse_shift_model sampleConv _ .module 400 _ (fun o h' => by rw [h] at h'; cases h'; decide)]
+  unfold parseText
+  rw [h]
+  rfl
+
+/-! ### the ranged half, for the expression fragment -/
+
+open PV.C02 in
+/-- every token converted to the expression parser's alphabet, with its byte range (`none` if some token has no
+    counterpart); the conversion sees the token only -/
+def convR (conv : PV.Lexer.Tok → Option PV.Expr.Tok) : List Spanned → Option (List PV.C02.RTok)
+  | [] => some []
+  | t :: ts =>
+    match conv t.tok, convR conv ts with
+    | some p, some r => some (⟨p, t.bs, t.be⟩ :: r)
+    | _, _ => none
+
+/-- `Top` in expression mode is `StartExpression TestList "\n"*`: the NEWLINE tokens at the end of the stream are not part
+    of the expression -/
+def dropTrailingNewlines (toks : List Spanned) : List Spanned :=
+  (toks.reverse.dropWhile (fun t => t.tok == .newline)).reverse
+
+/-- the ranged tokens of a text that lexes (trivia filtered, as in front of the parser; trailing NEWLINEs dropped) -/
+def rangedInput (conv : PV.Lexer.Tok → Option PV.Expr.Tok) : Option LexOut → Option (List PV.C02.RTok)
+  | some o =>
+    (match o.fin with
+     | .eof => convR conv (dropTrailingNewlines (Pipeline.filterTrivia o.toks))
+     | _ => none)
+  | none => none
+
+/-- text → ranged expression tree on the models: lexer model from start offset `start`, token conversion, the ranged
+    reference parser `PV.C02.parseRExpression` (whole input, expression mode); `none` = rejected -/
+def parseRText (conv : PV.Lexer.Tok → Option PV.Expr.Tok) (cfg : Cfg) (mode : PV.Lexer.Mode) (start : Nat) (src : List Nat) :
+    Option PV.C02.RExpr :=
+  (rangedInput conv (lex cfg mode start src)).bind PV.C02.parseRExpression
+
+theorem convR_shift (conv : PV.Lexer.Tok → Option PV.Expr.Tok) (k : Nat) : ∀ toks : List Spanned,
+    convR conv (toks.map (shiftTok k)) = (convR conv toks).map (·.map (shiftRTok k))
+  | [] => rfl
+  | t :: ts => by
+    simp only [List.map_cons, convR, convR_shift conv k ts]
+    have e : (shiftTok k t).tok = t.tok := rfl
+    rw [e]
+    cases h1 : conv t.tok <;> cases h2 : convR conv ts <;> simp [shiftTok, shiftRTok]
+
+theorem dropTrailingNewlines_shift (k : Nat) (toks : List Spanned) :
+    dropTrailingNewlines (toks.map (shiftTok k)) = (dropTrailingNewlines toks).map (shiftTok k) := by
+  have h : ∀ l : List Spanned, (l.map (shiftTok k)).dropWhile (fun t => t.tok == .newline) =
+      (l.dropWhile (fun t => t.tok == .newline)).map (shiftTok k) := by
+    intro l
+    induction l with
+    | nil => rfl
+    | cons t ts ih =>
+      simp only [List.map_cons, List.dropWhile_cons]
+      have e : (shiftTok k t).tok = t.tok := rfl
+      rw [e]
+      split <;> simp [ih]
+  simp only [dropTrailingNewlines, ← List.map_reverse, h]
+
+theorem rangedInput_shift (conv : PV.Lexer.Tok → Option PV.Expr.Tok) (k : Nat) (o : LexOut) :
+    rangedInput conv (some (shiftOut k o)) = (rangedInput conv (some o)).map (·.map (shiftRTok k)) := by
+  unfold rangedInput
+  cases hf : o.fin <;> simp [shiftOut, shiftEnd, hf, pipe_filterTrivia_shift, dropTrailingNewlines_shift, convR_shift]
+
+/-- **The ranged tree of an expression lexed at start offset `k` is the ranged tree at offset 0 with every range moved
+    by `k`** — and nothing else changed (`erase_shE`); a text rejected at 0 is rejected at `k`.  The first sentence of the
+    property at model level, for the expression fragment: composition of `lex_shift` with `parseR_shift`
+    (`parseRExpression_shift`). -/
+theorem lex_parseR_shift_model (conv : PV.Lexer.Tok → Option PV.Expr.Tok) (cfg : Cfg) (mode : PV.Lexer.Mode) (k : Nat) (src : List Nat)
+    (hfit : ∀ o, lex cfg mode 0 src = some o → o.reachedB + k ≤ u32Max) :
+    parseRText conv cfg mode k src = (parseRText conv cfg mode 0 src).map (shE k) := by
+  unfold parseRText
+  cases h0 : lex cfg mode 0 src with
+  | none => rw [lex_shift, h0]; rfl
+  | some o =>
+    rw [lex_shift_of_fit cfg mode k src o h0 (hfit o h0), rangedInput_shift]
+    cases rangedInput conv (some o) with
+    | none => rfl
+    | some toks => simp only [Option.map_some, Option.bind_some]; exact parseRExpression_shift k toks
+
+/-- a conversion for the example: names, integers, `(`, `)`, `,`, `=` -/
+def sampleConvE : PV.Lexer.Tok → Option PV.Expr.Tok
+  | .name n => some (.name n)
+  | .int v => some (.int v)
+  | .op .Lpar => some (.op .lpar)
+  | .op .Rpar => some (.op .rpar)
+  | .op .Comma => some (.op .comma)
+  | .op .Equal => some (.op .assign)
+  | _ => none
+
+/-- `f(a, k=1)` -/
+def callSrc : List Nat := [102, 40, 97, 44, 32, 107, 61, 49, 41]
+
+theorem callSrc_lex0 : lex ⟨false, asciiUp⟩ .expression 0 callSrc = some
+    ⟨[⟨.name [102], 0, 1, 0, 1⟩, ⟨.op .Lpar, 1, 2, 1, 2⟩, ⟨.name [97], 2, 3, 2, 3⟩, ⟨.op .Comma, 3, 4, 3, 4⟩,
+      ⟨.name [107], 5, 6, 5, 6⟩, ⟨.op .Equal, 6, 7, 6, 7⟩, ⟨.int 1, 7, 8, 7, 8⟩, ⟨.op .Rpar, 8, 9, 8, 9⟩,
+      ⟨.newline, 9, 9, 9, 9⟩], .eof, 9⟩ := by decide +kernel
+
+/-- at offset 0 the `Call` is ranged 0..9 and its `Keyword` 5..8 … -/
+theorem callSrc_tree0 : parseRText sampleConvE ⟨false, asciiUp⟩ .expression 0 callSrc =
+    some (.call (0, 9) (.name (0, 1) [102]) [.name (2, 3) [97]] [.mk (5, 8) (some [107]) (.const (7, 8) (.int 1))]) := by
+  unfold parseRText
+  rw [callSrc_lex0]
+  rfl
+
+/-- … and at offset 400 every range is moved by 400 -/
+example : parseRText sampleConvE ⟨false, asciiUp⟩ .expression 400 callSrc =
+    some (.call (400, 409) (.name (400, 401) [102]) [.name (402, 403) [97]]
+      [.mk (405, 408) (some [107]) (.const (407, 408) (.int 1))]) := by
+  rw [lex_parseR_shift_model sampleConvE _ .expression 400 callSrc
+    (fun o h => by rw [callSrc_lex0] at h; cases h; decide), callSrc_tree0]
+  rfl
 
 end PV.C09
